@@ -18,6 +18,11 @@ def chk(pid):
     partial = e.get("partial", [])
     text = ("Lean 4 theorems about an executable model (all degrees, nets, parameters, histories the property quantifies over) + "
             "model tied to the current tree by kernel-checked extracted constants/tables and exact/tolerance correspondence in both configurations")
+    tr = [x for x in e.get("extractors", []) if x.startswith("translate_")]
+    if tr:
+        src = [f for f in e.get("lean_files", []) if f.startswith("Tables/Src")]
+        text += ("; source-level tie: the routines listed in DESIGN.md 10.5 are re-translated from the current source text on every run (%s) and the kernel "
+                 "re-proves that each generated definition equals the model definition (%s)" % (", ".join(tr), ", ".join(src)))
     if partial:
         text += "; partial clauses: " + "; ".join(partial)
     return {"property_id": pid, "quick_cmd": "./check %s quick" % pid, "thorough_cmd": "./check %s thorough" % pid,
